@@ -393,6 +393,18 @@ def cases(draw, prof=None):
     return {'model': model, 'layout': layout, 'history': hist}
 
 
+def explore(ctx, strategy, check, n, label):
+    """quick: one Hypothesis run; thorough: chunks of 100 so that an exhausted budget also stops the *generation*"""
+    if not ctx.thorough:
+        ctx.given(strategy, check, n, label=label)
+        return
+    k = 0
+    while n > 0 and not ctx.out_of_time():
+        ctx.given(strategy, check, min(100, n), label=f'{label}{k}')
+        n -= 100
+        k += 1
+
+
 def run_shard(ctx):
     def counted(case, ctx_):
         for k in list(EXCLUDED) + gen.LAYOUT_TRIGGERS + ['nested_then_ancestor']:
@@ -401,7 +413,7 @@ def run_shard(ctx):
     prof = PROFILE
     if ctx.thorough:
         prof = dict(PROFILE, max_modules=3, max_free=3, max_routines=3, max_stmts=6)
-    ctx.given(cases(prof), counted, ctx.scale(1500, 30000))
+    explore(ctx, cases(prof), counted, ctx.scale(1500, 30000), 'main')
 
 
 def replay(case, ctx):
